@@ -2,6 +2,8 @@
 import Khttp.Driver.Parse
 import Khttp.Driver.Hdr
 import Khttp.Driver.Pool
+import Khttp.Driver.Date
+import Khttp.Driver.Route
 open Khttp Khttp.Driver
 
 def answer (line : String) : String :=
@@ -13,6 +15,9 @@ def answer (line : String) : String :=
     | "REQ" => reqLine arg
     | "RESP" => respLine arg
     | "HDR" => hdrLine arg
+    | "DATE" => dateLine arg
+    | "ROUTE" => routeLine arg
+    | "DATECACHE" => dateCacheLine arg
     | "POOLTRACE" => poolTraceLine arg
     | _ => "BAD-DOMAIN"
   | [] => "BAD-DOMAIN"
